@@ -167,6 +167,13 @@ class _Canon(ast.NodeTransformer):
 
     def visit_Call(self, node: ast.Call) -> ast.AST:
         self.generic_visit(node)
+        if isinstance(node.func, ast.Name) and node.func.id == "range" and len(node.args) == 3 and not node.keywords:
+            # range(a, -1, -1)  ->  reversed(range(a + 1))   (counting down to 0)
+            a_, stop_, step_ = node.args
+            minus1 = lambda e: (isinstance(e, ast.UnaryOp) and isinstance(e.op, ast.USub) and isinstance(e.operand, ast.Constant) and e.operand.value == 1) or (  # noqa: E731
+                isinstance(e, ast.Constant) and e.value == -1)
+            if minus1(stop_) and minus1(step_):
+                return ast.Call(ast.Name("reversed", ast.Load()), [ast.Call(ast.Name("range", ast.Load()), [ast.BinOp(a_, ast.Add(), ast.Constant(1))], [])], [])
         if isinstance(node.func, ast.Name) and node.func.id in ("isinstance", "isa") and len(node.args) == 2:
             cls = sorted(_isinstance_classes(node.args[1]), key=ast.unparse)
             second = cls[0] if len(cls) == 1 else ast.Tuple(cls, ast.Load())
